@@ -9,6 +9,8 @@ import (
 	"path/filepath"
 	"strconv"
 	"strings"
+	"syscall"
+	"time"
 
 	"verifsim/engine"
 	"verifsim/gtier"
@@ -30,6 +32,7 @@ type C19 struct {
 	dir         string
 	keys        []*cliKeys
 	w           int
+	dur         map[string]time.Duration // how long the last unsignalled command of each kind took
 }
 
 type cliKeys struct {
@@ -341,8 +344,15 @@ func (c *C19) Run(x *engine.Ctx) *engine.Violation {
 			if fault != "mode-absent" {
 				args = append(args, "--mode", mode)
 			}
-			r := ops.Run(ops.Cmd{Args: args, Stdin: stdin, RandSeed: seed(), Env: []string{"MTB_MODE="}})
+			pc := ops.Cmd{Args: args, Stdin: stdin, RandSeed: seed(), Env: []string{"MTB_MODE="}}
+			c.maybeSignal(t, &pc, "prove")
+			t0 := time.Now()
+			r := ops.Run(pc)
+			c.noteDuration("prove", pc, time.Since(t0))
 			x.S.Eval(1)
+			if r.SignalSent {
+				x.S.Count("fault:cli/prove/signal-while-running")
+			}
 			if fault != "none" {
 				x.S.Count("fault:cli/prove/" + fault)
 			}
@@ -372,10 +382,10 @@ func (c *C19) Run(x *engine.Ctx) *engine.Violation {
 				}
 				proofs = append(proofs, &cliProof{keys: k, hash: p.hash, json: body})
 			} else {
-				if len(bytes.TrimSpace(r.Stdout)) != 0 {
+				if len(bytes.TrimSpace(r.Stdout)) != 0 && !r.SignalSent {
 					return engine.Violatef("C19/prove-writes-stdout-on-failure", "%s fault=%s: exit %d but stdout has %q", k.sys.Key(), fault, r.Exit, ops.Tail(r.Stdout, 120))
 				}
-				if expectOK {
+				if expectOK && !r.SignalSent { // an interrupted command may die of the signal; it may not claim success wrongly
 					cause := "plain"
 					if p.from == "gen-test-params" {
 						cause = "gen-test-params-output"
@@ -467,8 +477,15 @@ func (c *C19) Run(x *engine.Ctx) *engine.Violation {
 			if mode != "" {
 				args = append(args, "--mode", mode)
 			}
-			r := ops.Run(ops.Cmd{Args: args, Stdin: proofJSON, RandSeed: seed(), Env: []string{"MTB_MODE="}})
+			vc := ops.Cmd{Args: args, Stdin: proofJSON, RandSeed: seed(), Env: []string{"MTB_MODE="}}
+			c.maybeSignal(t, &vc, "verify")
+			t0 := time.Now()
+			r := ops.Run(vc)
+			c.noteDuration("verify", vc, time.Since(t0))
 			x.S.Eval(1)
+			if r.SignalSent {
+				x.S.Count("fault:cli/verify/signal-while-running")
+			}
 			modeOK := mode == rollup.Insertion || mode == rollup.Deletion
 			_, statErr := os.Stat(keysPath)
 			ref := modeOK && hashParses && statErr == nil && refVerify(vk, hashVal, proofJSON)
@@ -481,7 +498,7 @@ func (c *C19) Run(x *engine.Ctx) *engine.Violation {
 			if r.TimedOut {
 				return engine.Violatef("C19/verify-hangs", "%s fault=%s", vk.sys.Key(), fault)
 			}
-			if ref && r.Exit != 0 {
+			if ref && r.Exit != 0 && !r.SignalSent {
 				short := "all-coordinates-32-bytes"
 				if cs, err := gtier.DecodeJSON(proofJSON); err == nil && gtier.ShortCoordinates(cs) > 0 {
 					short = "coordinate-shorter-than-32-bytes"
@@ -506,3 +523,32 @@ func renderProof(cs [8]*big.Int) []byte {
 }
 
 var _ = tape.New
+
+// maybeSignal: in one command out of six a SIGINT or SIGTERM reaches the one-shot command at a tape-chosen fraction
+// of the time such a command took the last time (a ^C, a supervisor's TERM, a pipeline torn down). The process may
+// die of it or finish; what it may not do is report success for something that is not true: the "exit 0 => ..."
+// halves of the oracle stay in force, the "must succeed" halves are waived for a command that was signalled.
+func (c *C19) maybeSignal(t *tape.Tape, cmd *ops.Cmd, kind string) {
+	if !t.Chance(1, 6) {
+		return
+	}
+	d := c.dur[kind]
+	if d <= 0 {
+		d = 400 * time.Millisecond
+	}
+	cmd.SignalAfter = time.Duration(1+t.Draw(1000)) * d / 1000
+	cmd.Signal = syscall.SIGINT
+	if t.Chance(1, 2) {
+		cmd.Signal = syscall.SIGTERM
+	}
+}
+
+func (c *C19) noteDuration(kind string, cmd ops.Cmd, d time.Duration) {
+	if cmd.SignalAfter > 0 {
+		return
+	}
+	if c.dur == nil {
+		c.dur = map[string]time.Duration{}
+	}
+	c.dur[kind] = d
+}
